@@ -37,6 +37,13 @@ theorem tsigRun_exists (cfg : Cfg) (tr : Transport) (now bufLen : Nat) (req : By
   obtain ⟨t, mw, r', question, h1, h2, h3, h4⟩ := handleMessage_tsig_eq cfg tr now bufLen req hbuf hpay hreq hr hv
   exact ⟨t, mw, r', question, h1, h2, h3, h4⟩
 
+/-- `set_rcode(rc)` on the header view -/
+theorem hdrView_stRcode (rc : Nat) (s : State) (h3 : 3 < s.octets.size) {v : View} (h : HdrView s v) :
+    HdrView (stRcode rc s) { rcode := rc, aa := v.aa, tc := v.tc } := by
+  have h1 := ((hdrStep_setRcode rc) s v h).1
+  rw [setRcode_eq rc s h3] at h1
+  exact ⟨(h1 rfl).1, (h1 rfl).2.1, (h1 rfl).2.2⟩
+
 /-- authenticated, no-data verdict (`signed_nodata_final`) -/
 theorem signed_nodata_final_of_run (cfg : Cfg) (tr : Transport) (now bufLen : Nat) (req : Bytes)
     (hbuf : minBuf tr cfg.payload ≤ bufLen) (hpay : 512 ≤ cfg.payload) (hp16 : cfg.payload ≤ 65535)
@@ -58,7 +65,8 @@ theorem signed_nodata_final_of_run (cfg : Cfg) (tr : Transport) (now bufLen : Na
           F.edns = (if (Spec.Server.specScanWith (catKind cfg) cfg.payload req).edns then some ⟨cfg.payload, 0⟩ else none) ∧
           mac = some (Server.macFn (respTsig alg key kn t nowT)
             (signedPrefix req cfg.payload (Spec.Server.specScanWith (catKind cfg) cfg.payload req)
-              (Spec.Server.verdictRcode v).1)) := by
+              (Spec.Server.verdictRcode v).1)) ∧
+          HdrView F { rcode := (Spec.Server.verdictRcode v).1 } := by
   obtain ⟨h1, h2, _, h4⟩ := hrun
   intro r'' S hT v hvv hev b hb
   have hne : endVerdict (catKind cfg) req.size (Spec.Server.specScanWith (catKind cfg) cfg.payload req).question
@@ -86,6 +94,8 @@ theorem signed_nodata_final_of_run (cfg : Cfg) (tr : Transport) (now bufLen : Na
       (((req.getD 2 0).toNat &&& 1) != 0) hbuf hpay req sc.question hq
   have g1 := good_s1 bufLen tr cfg.payload (Spec.Server.hdr req 0) (((req.getD 2 0).toNat &&& 120) >>> 3)
       (((req.getD 2 0).toNat &&& 1) != 0) hbuf hpay req sc.question hq
+  have hv0 := hdrView_scan_state bufLen tr cfg.payload (Spec.Server.hdr req 0) (((req.getD 2 0).toNat &&& 120) >>> 3)
+      (((req.getD 2 0).toNat &&& 1) != 0) hbuf hpay req sc.question hq sc.edns sc.limitUdp
   generalize qSt (hdrSt (w0 bufLen (lim0 tr)) (Spec.Server.hdr req 0) (((req.getD 2 0).toNat &&& 120) >>> 3)
       (((req.getD 2 0).toNat &&& 1) != 0)) sc.question = s1 at *
   unfold Server.tsigAfter at hT
@@ -129,7 +139,12 @@ theorem signed_nodata_final_of_run (cfg : Cfg) (tr : Transport) (now bufLen : Na
       obtain ⟨hmac, _⟩ := signed_response_list Server.macFn req cfg.payload sc
         (Spec.Server.verdictRcode v).1 s1 _ (respTsig alg key kn t nowT) hcur o0 o1 o2 hQ hqd han hns har
         hF.oct hF.o3 hF.cur hF.tsig hF.edns hF.qd hF.an hF.ns hF.ar b mac hfin
-      exact ⟨nowT, alg, key, kn, _, mac, rfl, ha, hk, hkn, hver, hfin, gD, hF.tsig, hF.edns, by rw [hmac]; rfl⟩
+      have hdrV : HdrView (stRcode (Spec.Server.verdictRcode v).1
+          (ServerTsig.withTsig (stRcode 0 (arSt s1 tr cfg.payload sc.edns sc.limitUdp))
+            (.response (Server.toWriterAlg alg) t.mac key.secret) (ServerTsig.prepOf kn t nowT 0)))
+          { rcode := (Spec.Server.verdictRcode v).1 } :=
+        hdrView_stRcode _ _ h3c (hdrView_withTsig _ h3s hv0 _ _)
+      exact ⟨nowT, alg, key, kn, _, mac, rfl, ha, hk, hkn, hver, hfin, gD, hF.tsig, hF.edns, by rw [hmac]; rfl, hdrV⟩
     · rw [hfin] at hM; cases hM
     · rw [hfin] at hM; cases hM
 
@@ -149,7 +164,8 @@ theorem signed_error_final_of_run (cfg : Cfg) (tr : Transport) (now bufLen : Nat
             F.tsig = some ⟨mode, ServerTsig.reservedLen mode rr, rr⟩ ∧
             F.edns = (if (Spec.Server.specScanWith (catKind cfg) cfg.payload req).edns then some ⟨cfg.payload, 0⟩ else none) ∧
             mac = finishMac Server.macFn ⟨mode, ServerTsig.reservedLen mode rr, rr⟩
-              (signedPrefix req cfg.payload (Spec.Server.specScanWith (catKind cfg) cfg.payload req) rc) := by
+              (signedPrefix req cfg.payload (Spec.Server.specScanWith (catKind cfg) cfg.payload req) rc) ∧
+            HdrView F { rcode := rc } := by
   obtain ⟨h1, h2, _, h4⟩ := hrun
   intro nowT kn an rc mode rr hnow hkn han hrep hfit b hb
   obtain ⟨_, _, hsce⟩ := specScanWith_respond _ _ _ hr
@@ -165,6 +181,8 @@ theorem signed_error_final_of_run (cfg : Cfg) (tr : Transport) (now bufLen : Nat
       (((req.getD 2 0).toNat &&& 1) != 0) hbuf hpay req sc.question hq
   have g1 := good_s1 bufLen tr cfg.payload (Spec.Server.hdr req 0) (((req.getD 2 0).toNat &&& 120) >>> 3)
       (((req.getD 2 0).toNat &&& 1) != 0) hbuf hpay req sc.question hq
+  have hv0 := hdrView_scan_state bufLen tr cfg.payload (Spec.Server.hdr req 0) (((req.getD 2 0).toNat &&& 120) >>> 3)
+      (((req.getD 2 0).toNat &&& 1) != 0) hbuf hpay req sc.question hq sc.edns sc.limitUdp
   generalize qSt (hdrSt (w0 bufLen (lim0 tr)) (Spec.Server.hdr req 0) (((req.getD 2 0).toNat &&& 120) >>> 3)
       (((req.getD 2 0).toNat &&& 1) != 0)) sc.question = s1 at *
   have h3s : 3 < (arSt s1 tr cfg.payload sc.edns sc.limitUdp).octets.size := by rw [arSt_size]; exact hs3
@@ -189,7 +207,9 @@ theorem signed_error_final_of_run (cfg : Cfg) (tr : Transport) (now bufLen : Nat
     obtain ⟨hmac, _⟩ := signed_response_list Server.macFn req cfg.payload sc rc s1 _
       ⟨mode, ServerTsig.reservedLen mode rr, rr⟩ hcur o0 o1 o2 hQ hqd han' hns har
       hF.oct hF.o3 hF.cur hF.tsig hF.edns hF.qd hF.an hF.ns hF.ar b mac hfin
-    exact ⟨_, mac, hfin, gC, hF.tsig, hF.edns, hmac⟩
+    have hdrV : HdrView (ServerTsig.withTsig (stRcode rc (arSt s1 tr cfg.payload sc.edns sc.limitUdp)) mode rr)
+        { rcode := rc } := hdrView_congr (hdrView_stRcode rc _ h3s hv0) rfl rfl
+    exact ⟨_, mac, hfin, gC, hF.tsig, hF.edns, hmac, hdrV⟩
   · rw [hfin] at h4; cases h4
   · rw [hfin] at h4; cases h4
 
@@ -846,6 +866,192 @@ theorem signed_response_decodes (cfg : Cfg) (hcfg : CfgWF cfg) (tr : Transport) 
   obtain ⟨F, mac, bd, hf, hG, _⟩ := signed_final_good cfg hcfg tr now bufLen req hbuf hpay hp16 hreq hr hv b hb
   obtain ⟨d, hd⟩ := decodes_of_good F bd hG b mac hf
   exact ⟨b, d, hb, hd⟩
+
+
+/-! ### the TSIG RDATA round trip -/
+
+theorem splitNameAux_wire (rest : List UInt8) : ∀ (ls : List Label), (∀ l ∈ ls, 1 ≤ l.length ∧ l.length ≤ 63) →
+    ∀ fuel, ls.length + 1 ≤ fuel → Spec.Tsig.splitNameAux fuel (ls.flatMap WName.encLabel ++ 0 :: rest) = some (ls, rest) := by
+  intro ls
+  induction ls with
+  | nil =>
+    intro _ fuel hf
+    cases fuel with
+    | zero => omega
+    | succ f => simp [Spec.Tsig.splitNameAux]
+  | cons l r ih =>
+    intro hl fuel hf
+    cases fuel with
+    | zero => omega
+    | succ f =>
+      obtain ⟨h1, h2⟩ := hl l (by simp)
+      have hlen : (UInt8.ofNat l.length).toNat = l.length := by
+        simp only [UInt8.toNat_ofNat', Nat.reducePow]; omega
+      have hne : UInt8.ofNat l.length ≠ 0 := by
+        intro h; rw [h] at hlen; have : (0 : UInt8).toNat = 0 := rfl; omega
+      simp only [List.flatMap_cons, WName.encLabel, List.cons_append, List.append_assoc, Spec.Tsig.splitNameAux, hne, if_false, hlen]
+      rw [if_neg (by simp only [List.length_append]; omega)]
+      rw [List.drop_left' rfl, List.take_left' rfl]
+      rw [ih (fun x hx => hl x (by simp [hx])) f (by simp only [List.length_cons] at hf; omega)]
+      rfl
+
+theorem length_le_flatMap (ls : List Label) : ls.length ≤ (ls.flatMap WName.encLabel).length := by
+  induction ls with
+  | nil => simp
+  | cons a r ih =>
+    simp only [List.flatMap_cons, List.length_append, WName.encLabel, List.length_cons]
+    omega
+
+theorem splitName_wire (n : WName) (h : n.WF) (rest : List UInt8) :
+    Spec.Tsig.splitName (n.wire ++ rest) = some (n.labels, rest) := by
+  obtain ⟨hl, hw⟩ := h
+  unfold Spec.Tsig.splitName
+  have : n.wire ++ rest = n.labels.flatMap WName.encLabel ++ 0 :: rest := by
+    unfold WName.wire; simp
+  have hwl : n.labels.length + 1 ≤ (n.wire ++ rest).length + 1 := by
+    have := length_le_flatMap n.labels
+    unfold WName.wire
+    simp only [List.length_append, List.length_cons, List.length_nil]
+    omega
+  rw [this] at hwl ⊢
+  rw [splitNameAux_wire rest n.labels (fun l hl' => ⟨(hl l hl').1, (hl l hl').2⟩) _ hwl]
+  simp only
+  rw [if_pos]
+  rw [← this]
+  simp only [List.length_append]
+  have : Gen.MAX_WIRE_LEN = 255 := rfl
+  omega
+
+
+theorem field16_u16be (n : Nat) (rest : List UInt8) : Spec.Tsig.field16 (u16be n ++ rest) 0 = n % 65536 := by
+  simp only [Spec.Tsig.field16, u16be, List.cons_append, List.nil_append, List.getD_cons_zero, List.getD_cons_succ,
+    UInt8.toNat_ofNat', Nat.reducePow]
+  omega
+
+theorem list6 (l : List UInt8) (h : l.length = 6) : ∃ a b c d e f, l = [a, b, c, d, e, f] := by
+  match l, h with
+  | [a, b, c, d, e, f], _ => exact ⟨a, b, c, d, e, f, rfl⟩
+
+theorem u8_two (x : Nat) : (UInt8.ofNat (x / 256 % 256)).toNat * 256 + (UInt8.ofNat (x % 256)).toNat = x % 65536 := by
+  simp only [UInt8.toNat_ofNat', Nat.reducePow]; omega
+
+theorem parseRdata_build (alg : WName) (halg : alg.WF) (ts : List UInt8) (ht : ts.length = 6)
+    (fudge oid err : Nat) (mac other : List UInt8) (hmac : mac.length < 65536) (hol : other.length < 65536) :
+    Spec.Tsig.parseRdata (alg.wire ++ ts ++ u16be fudge ++ u16be mac.length ++ mac ++ u16be oid ++ u16be err ++
+        u16be other.length ++ other) =
+      some ⟨alg.labels, Spec.Tsig.nat48 ts, fudge % 65536, mac, oid % 65536, err % 65536, other⟩ := by
+  obtain ⟨a, b, c, d, e, f, rfl⟩ := list6 _ ht
+  have e1 : alg.wire ++ [a, b, c, d, e, f] ++ u16be fudge ++ u16be mac.length ++ mac ++ u16be oid ++ u16be err ++
+      u16be other.length ++ other =
+      alg.wire ++ (a :: b :: c :: d :: e :: f :: UInt8.ofNat (fudge / 256 % 256) :: UInt8.ofNat (fudge % 256) ::
+        UInt8.ofNat (mac.length / 256 % 256) :: UInt8.ofNat (mac.length % 256) ::
+        (mac ++ (UInt8.ofNat (oid / 256 % 256) :: UInt8.ofNat (oid % 256) :: UInt8.ofNat (err / 256 % 256) ::
+          UInt8.ofNat (err % 256) :: UInt8.ofNat (other.length / 256 % 256) :: UInt8.ofNat (other.length % 256) ::
+          other))) := by
+    simp only [u16be, List.append_assoc, List.cons_append, List.nil_append]
+  rw [e1]
+  unfold Spec.Tsig.parseRdata
+  rw [splitName_wire alg halg]
+  simp only
+  have hms : Spec.Tsig.field16 (a :: b :: c :: d :: e :: f :: UInt8.ofNat (fudge / 256 % 256) :: UInt8.ofNat (fudge % 256) ::
+        UInt8.ofNat (mac.length / 256 % 256) :: UInt8.ofNat (mac.length % 256) ::
+        (mac ++ (UInt8.ofNat (oid / 256 % 256) :: UInt8.ofNat (oid % 256) :: UInt8.ofNat (err / 256 % 256) ::
+          UInt8.ofNat (err % 256) :: UInt8.ofNat (other.length / 256 % 256) :: UInt8.ofNat (other.length % 256) ::
+          other))) 8 = mac.length := by
+    simp only [Spec.Tsig.field16, List.getD_cons_succ, List.getD_cons_zero]
+    rw [u8_two mac.length]; omega
+  have hfu : Spec.Tsig.field16 (a :: b :: c :: d :: e :: f :: UInt8.ofNat (fudge / 256 % 256) :: UInt8.ofNat (fudge % 256) ::
+        UInt8.ofNat (mac.length / 256 % 256) :: UInt8.ofNat (mac.length % 256) ::
+        (mac ++ (UInt8.ofNat (oid / 256 % 256) :: UInt8.ofNat (oid % 256) :: UInt8.ofNat (err / 256 % 256) ::
+          UInt8.ofNat (err % 256) :: UInt8.ofNat (other.length / 256 % 256) :: UInt8.ofNat (other.length % 256) ::
+          other))) 6 = fudge % 65536 := by
+    simp only [Spec.Tsig.field16, List.getD_cons_succ, List.getD_cons_zero]
+    exact u8_two fudge
+  rw [hms, hfu]
+  simp only [List.length_cons, List.length_append, List.drop_succ_cons, List.drop_zero]
+  rw [if_neg (by omega), if_neg (by omega)]
+  rw [List.drop_left' rfl, List.take_left' rfl]
+  have h4 : Spec.Tsig.field16 (UInt8.ofNat (oid / 256 % 256) :: UInt8.ofNat (oid % 256) :: UInt8.ofNat (err / 256 % 256) ::
+          UInt8.ofNat (err % 256) :: UInt8.ofNat (other.length / 256 % 256) :: UInt8.ofNat (other.length % 256) ::
+          other) 4 = other.length := by
+    simp only [Spec.Tsig.field16, List.getD_cons_succ, List.getD_cons_zero]
+    rw [u8_two other.length]; omega
+  have h0 : Spec.Tsig.field16 (UInt8.ofNat (oid / 256 % 256) :: UInt8.ofNat (oid % 256) :: UInt8.ofNat (err / 256 % 256) ::
+          UInt8.ofNat (err % 256) :: UInt8.ofNat (other.length / 256 % 256) :: UInt8.ofNat (other.length % 256) ::
+          other) 0 = oid % 65536 := by
+    simp only [Spec.Tsig.field16, List.getD_cons_succ, List.getD_cons_zero]
+    exact u8_two oid
+  have h2 : Spec.Tsig.field16 (UInt8.ofNat (oid / 256 % 256) :: UInt8.ofNat (oid % 256) :: UInt8.ofNat (err / 256 % 256) ::
+          UInt8.ofNat (err % 256) :: UInt8.ofNat (other.length / 256 % 256) :: UInt8.ofNat (other.length % 256) ::
+          other) 2 = err % 65536 := by
+    simp only [Spec.Tsig.field16, List.getD_cons_succ, List.getD_cons_zero]
+    exact u8_two err
+  rw [h4, h0, h2]
+  simp only [List.drop_succ_cons, List.drop_zero, ne_eq, not_true_eq_false, if_false]
+  rfl
+
+/-- **the TSIG RDATA the writer serialises parses back to its fields** (RFC 8945 §4.2 reader of the
+    specification on `serialize_tsig_unchecked`'s octets) -/
+theorem parseRdata_tsigRdata (rr : TsigRr) (alg : WName) (mac : List UInt8) (halg : alg.WF)
+    (ht : rr.timeSigned.length = 6) (hs : rr.serverTime.length = 6) (hmac : mac.length < 65536) :
+    Spec.Tsig.parseRdata (tsigRdata rr alg mac) =
+      some ⟨alg.labels, Spec.Tsig.nat48 rr.timeSigned, rr.fudge % 65536, mac, rr.originalId % 65536, rr.error % 65536,
+        if rr.error = XR_BADTIME then rr.serverTime else []⟩ := by
+  unfold tsigRdata
+  exact parseRdata_build alg halg rr.timeSigned ht rr.fudge rr.originalId rr.error mac _ hmac (by
+    split
+    · rw [hs]; omega
+    · simp)
+
+
+/-! ### the decoded TSIG record, field by field -/
+
+theorem finishMac_length (ts : Writer.Tsig) (pre : List UInt8) :
+    ((finishMac Server.macFn ts pre).getD []).length < 65536 := by
+  have hm := macLenOK_server hmacLenOK ts pre
+  unfold finishMac
+  cases hmode : ts.mode with
+  | unsigned n => simp
+  | request a k => simp only [Option.getD_some]; rw [hmode] at hm; simp only at hm; cases a <;> simp only [algOutputSize] at hm <;> omega
+  | response a m k => simp only [Option.getD_some]; rw [hmode] at hm; simp only at hm; cases a <;> simp only [algOutputSize] at hm <;> omega
+  | subsequent a m k => simp only [Option.getD_some]; rw [hmode] at hm; simp only at hm; cases a <;> simp only [algOutputSize] at hm <;> omega
+
+/-- **a `Good` final writer with a pending TSIG, decoded field by field**: RCODE / AA / TC as the
+    header shows; the last additional record is the TSIG record, and the specification's RFC 8945
+    §4.2 reader (`Spec.Tsig.parseRdata`) reads from its RDATA exactly the fields of the recorded RR:
+    algorithm name, time signed, fudge, the MAC `finish` computed, original ID, error, other data
+    (the server time iff the error is BADTIME) -/
+theorem tsig_fields_of_good (F : State) (bd : Body) (hG : Good F bd) (ts : Writer.Tsig) (hts : F.tsig = some ts)
+    (hwf : (tsigAlgName ts.mode).WF) (l1 : ts.rr.timeSigned.length = 6) (l2 : ts.rr.serverTime.length = 6)
+    (v : View) (hh : HdrView F v) (b : Bytes) (mac : Option (List UInt8))
+    (hf : Writer.finish F Server.macFn = .ok (b, mac)) (d : DMsg) (hd : specDecodeMsg b = some d) :
+    d.rcode = v.rcode % 16 ∧ d.aa = v.aa ∧ d.tc = v.tc ∧
+    ∃ rest o, d.ar = rest ++ [o] ∧ o.ty = 250 ∧ o.cls = 255 ∧ o.rawTtl = 0 ∧
+      Spec.Tsig.parseRdata o.rdata = some ⟨(tsigAlgName ts.mode).labels, Spec.Tsig.nat48 ts.rr.timeSigned,
+        ts.rr.fudge % 65536, mac.getD [], ts.rr.originalId % 65536, ts.rr.error % 65536,
+        if ts.rr.error = XR_BADTIME then ts.rr.serverTime else []⟩ := by
+  obtain ⟨f2, f3⟩ := finish_flags_tsig F hG.1 ts hts b mac hf
+  obtain ⟨g1, g2, g3⟩ := flags_of_hdrView b F v f2 f3 hh d hd
+  obtain ⟨rest, o, e1, e2, e3, e4, _, e6, _, _⟩ := tsig_of_good Server.macFn F bd hG ts hts b mac hf d hd
+  obtain ⟨_, hmac, _⟩ := finish_octets_tsig Server.macFn F hG.1.inv.hdr ts hts b mac hf
+  refine ⟨g1, g2, g3, rest, o, e1, e2, e3, e4, ?_⟩
+  rw [e6]
+  exact parseRdata_tsigRdata ts.rr (tsigAlgName ts.mode) (mac.getD []) hwf l1 l2 (by rw [hmac]; exact finishMac_length ts _)
+
+open QV.ServerTsig in
+/-- what the decision table prescribes for a rejected request: the prepared RR with error BADSIG (16),
+    BADKEY (17) or BADTIME (18), RCODE NOTAUTH (9) or FORMERR (1) -/
+theorem tsigStopReply_prep {hm : Tsig.Algorithm → Tsig.Octets → Tsig.Octets → Tsig.Octets} {keys : List Server.Key}
+    {nowT : Tsig.TimeSigned} {r : Tsig.ReadTsigRr} {msg : List UInt8} {kn an : WName} {rc : Nat} {mode : TsigMode}
+    {rr : TsigRr} (h : tsigStopReply hm keys nowT r msg kn an = some (rc, mode, rr)) :
+    (rc = 9 ∨ rc = 1) ∧ ∃ e, (e = 16 ∨ e = 17 ∨ e = 18) ∧ rr = prepOf kn r nowT e := by
+  unfold tsigStopReply at h
+  repeat' split at h
+  all_goals first
+    | (cases h; done)
+    | (simp only [Option.some.injEq, Prod.mk.injEq] at h
+       obtain ⟨rfl, _, rfl⟩ := h
+       exact ⟨by omega, _, by omega, rfl⟩)
 
 
 end QV.ServerContent
